@@ -310,6 +310,12 @@ def build(spec, decorate=None, on_action=None, budget=30):
         else:
           status = chart.trans(fns[tgt])
     if status is None:
+      if faults and faults.get(str(i)) == "none_else":
+        # malformed: the handler has no 'else' clause - it names no parent and returns no status
+        # for anything it has no clause for (C24)
+        if rt.keep_raw and sig != REFL:
+          rt.raw.append(("ret", e.signal_name, i, None, sig in signums))
+        return None
       p = parent[i]
       chart.temp.fun = chart.top if p == -1 else fns[p]
       status = SUPER
